@@ -24,7 +24,8 @@ Definition pair_ok (x sg : bytes) : result bool :=
   if negb (so_xonly_ok so x) then Err
   else match sg with
        | [] => Ok false
-       | _ => so_schnorr so x (fst (schnorr_split sg)) (snd (schnorr_split sg))
+       | _ => if negb (schnorr_form_ok sg) then Err          (* BIP341 signature form *)
+              else so_schnorr so x (fst (schnorr_split sg)) (snd (schnorr_split sg))
        end.
 
 Fixpoint count_ok (keys sigs : list bytes) : result Z :=
@@ -42,6 +43,7 @@ Proof.
   unfold op_checksigadd_schnorr, pair_ok.
   destruct (so_xonly_ok so x); cbn [negb bind]; [|reflexivity].
   destruct sg as [|g0 g]; cbn [bind]; [reflexivity|].
+  destruct (negb (schnorr_form_ok (g0 :: g))); [reflexivity|].
   destruct (schnorr_split (g0 :: g)) as [sg' ht]. cbn [fst snd].
   destruct (so_schnorr so x sg' ht) as [[|]|]; reflexivity.
 Qed.
@@ -53,6 +55,7 @@ Proof.
   unfold op_checksig_schnorr, pair_ok.
   destruct (so_xonly_ok so x); cbn [negb bind]; [|reflexivity].
   destruct sg as [|g0 g]; cbn [bind]; [reflexivity|].
+  destruct (negb (schnorr_form_ok (g0 :: g))); [reflexivity|].
   destruct (schnorr_split (g0 :: g)) as [sg' ht]. cbn [fst snd].
   destruct (so_schnorr so x sg' ht) as [[|]|]; reflexivity.
 Qed.
